@@ -1,8 +1,10 @@
 #!/bin/bash
-# tools/runall.sh [tier] : runs every check once, prints one line per check
+# tools/runall.sh [tier] [ids...] : runs every check (or the listed ones, e.g. 07 13) once, prints one line per check
 tier=${1:-quick}
+shift
+ids=${@:-01 02 03 04 05 06 07 08 09 10 11 12 13 14 15 16 17 18 19 20}
 cd "$(dirname "$0")/.."
-for i in 01 02 03 04 05 06 07 08 09 10 11 12 13 14 15 16 17 18 19 20; do
+for i in $ids; do
   s=$(date +%s)
   out=$(timeout ${TMO:-3600} ./check C$i --tier $tier 2>/dev/null)
   rc=$?
